@@ -1,6 +1,8 @@
 package main
 
 import (
+	"go/ast"
+	"go/types"
 	"encoding/json"
 	"flag"
 	"fmt"
@@ -111,6 +113,11 @@ func cone(w *World, id string) []*FuncInfo {
 			return // uncontracted callees are havoc at the call site; their bodies are not part of this proof
 		}
 		for _, c := range w.callees[fi] {
+			// a tool's main is in the cone for what main itself does (dispatch, order, output); the library functions it
+			// calls belong to the properties their own contracts name, not to every property of the tool
+			if fi.PkgDir != c.PkgDir && fi.PkgDir != "." {
+				continue
+			}
 			add(c)
 		}
 	}
@@ -126,12 +133,32 @@ func cone(w *World, id string) []*FuncInfo {
 				}
 			}
 		}
+		if !tagged && id == "C09" && !fi.Contract.Trusted && rangesOverBuiltinMap(fi) {
+			// determinism: a range over a built-in map is accepted as order-independent because the function's functional
+			// postcondition is proved for every iteration order - so that proof is part of this property
+			tagged = true
+		}
 		if tagged {
 			add(fi)
 		}
 	}
 	sort.Slice(out, func(i, j int) bool { return out[i].Key < out[j].Key })
 	return out
+}
+
+func rangesOverBuiltinMap(fi *FuncInfo) bool {
+	found := false
+	ast.Inspect(fi.Decl.Body, func(n ast.Node) bool {
+		if rs, ok := n.(*ast.RangeStmt); ok {
+			if t := fi.Pkg.TypesInfo.TypeOf(rs.X); t != nil {
+				if _, isMap := t.Underlying().(*types.Map); isMap {
+					found = true
+				}
+			}
+		}
+		return true
+	})
+	return found
 }
 
 type keyAgg struct {
@@ -183,7 +210,7 @@ func cmdCheck(args []string) int {
 	}
 	start := time.Now()
 	w, lib := setup()
-	p := &Prover{Lib: lib, WorkDir: filepath.Join(verifDir, "work"), Par: runtime.NumCPU(), Timeout: 10 * time.Second}
+	p := &Prover{Lib: lib, WorkDir: filepath.Join(verifDir, "work"), Par: (runtime.NumCPU() + 1) / 2, Timeout: 20 * time.Second}
 	if tier == "thorough" {
 		p.Timeout = 60 * time.Second
 		p.TwoAgree = true
@@ -192,6 +219,15 @@ func cmdCheck(args []string) int {
 		p.Claimed = map[string]bool{}
 		for k := range l.Keys {
 			p.Claimed[k] = true
+		}
+	}
+	p.Short = map[string]bool{}
+	for k := range loadAssumed() {
+		p.Short[k] = true
+	}
+	for _, f := range loadFindings() {
+		if f.Kind == "finding" && f.Obligation != "" {
+			p.Short[f.Obligation] = true
 		}
 	}
 	run := runProperty(w, lib, p, id, tier)
